@@ -16,7 +16,7 @@ PROP = {'drive': ['Otl'], 'modules': ['SfntV.Props.C08'],
                        'C08_info_roundtrip', 'C08_info_roundtrip_nonvacuous', 'C08_gdef_roundtrip_value', 'C08_gdef_roundtrip_eq',
                        'C08_reader_prefix_only_gsub', 'C08_reader_prefix_only_gpos', 'C08_codec_law',
                        'C08_gsub_info_roundtrip', 'C08_gpos_info_roundtrip', 'C08_gsub_info_roundtrip_nonvacuous',
-                       'C08_readlookuplist_accepts', 'C08_info_roundtrip_go', 'C08_gsub_info_roundtrip_go',
+                       'C08_readlookuplist_accepts', 'C08_tryreorder_complete', 'C08_info_roundtrip_go', 'C08_gsub_info_roundtrip_go',
                        'C08_gpos_info_roundtrip_go',
                        'C08_reader_cov_in_range_coverage', 'C08_reader_cov_in_range_gsub1_2',
                        'C08_reader_cov_in_range_gsub2_1_3_1', 'C08_reader_cov_in_range_gsub4_1',
